@@ -199,6 +199,10 @@ Top:
 				b = strconv.AppendInt(b, int64(len(to.dims)), 10)
 				b = append(b, 'A')
 			}
+			if 0 < len(to.dims) && to.dims[0] == 0 {
+				// The reader wants a list after the prefix, not nil.
+				return append(b, '(', ')')
+			}
 			goto Top
 		} else {
 			switch len(to.dims) {
